@@ -15,7 +15,7 @@ import vlib
 HARNESS = os.path.join(vlib.ROOT, "tools", "harness")
 WRAP = ["-Wl,--wrap=malloc", "-Wl,--wrap=free", "-Wl,--wrap=calloc", "-Wl,--wrap=realloc"]
 K_THETA = "leak:theta_chain_t.steps:malloc-in-theta_chain_comput_*:never-freed"
-K_GMP_SIGN = "leak:protocols_sign:gmp-integers:lideal_aux_resp_com-init-instead-of-finalize"
+K_GMP_SIGN = "leak:protocols_sign:gmp-integers-not-cleared"
 K_UB_RAND = "ub:honest-sign:ibz_rand_interval:shift-exponent-64"
 
 
@@ -167,7 +167,7 @@ def harness(ctx, exe, step_bytes_expected=None):
     # checkpoints: [after keygen] then (after sign, after verify) * K ...
     sign_cp = gl[1:1 + 2 * K:2]
     if len(sign_cp) >= 3 and sign_cp[-1] > sign_cp[-2] > sign_cp[-3]:
-        ctx.violation(K_GMP_SIGN, "GMP integers initialised in protocols_sign are never cleared (quat_left_ideal_init(&lideal_aux_resp_com) is called a second time where finalize was meant): +%d live GMP blocks per signature"
+        ctx.violation(K_GMP_SIGN, "GMP integers allocated during protocols_sign are never cleared: +%d live GMP blocks per signature on the same objects (one site: quat_left_ideal_init(&lideal_aux_resp_com) called a second time where finalize was meant, 15 of the 28 blocks at level 1; the rest is below protocols_sign)"
                       % (sign_cp[-1] - sign_cp[-2]), dict(ops=ops, gmp_live_blocks_after_each_sign=sign_cp))
     ctx.coverage["gmp_live_blocks_after_each_sign"] = sign_cp
 
